@@ -51,7 +51,8 @@ PROPS = {
         "assumptions": ["the error contract at message level (skip vs close) is proved about Incoming.process_message (Props_C16) and exercised by the incoming engine"],
     },
     "C16": {
-        "engines": [{"name": "incoming", "n": {"quick": 3000, "thorough": 100000}, "profiles": ["debug"]}],
+        "engines": [{"name": "incoming", "n": {"quick": 3000, "thorough": 100000}, "profiles": ["debug"]},
+                    {"name": "stream", "n": {"quick": 1000, "thorough": 40000}, "profiles": ["debug"], "oracle": "oracle", "shard": 100}],
         "rule": "engine incoming: process_message on generated Message values (honest blocks, wrong data, unknown / scripted / oversize hash codes, "
                 "unparsable prefixes, explicit v0, duplicates; valid / invalid / trailing-bytes presence CIDs with contradictory types; wantlists absent / "
                 "empty / full / with entries) under capacities 64/48/32 and 0-2 scripted hashers (ok / custom / fatal / invalid-size / unknown) in front of the "
@@ -92,7 +93,8 @@ PROPS = {
         "assumptions": ["32 <= S <= 255"],
     },
     "C10": {
-        "engines": [{"name": "codec", "n": {"quick": 1200, "thorough": 40000}, "profiles": ["debug", "release"], "oracle": "oracle_C10"}],
+        "engines": [{"name": "codec", "n": {"quick": 1200, "thorough": 40000}, "profiles": ["debug", "release"], "oracle": "oracle_C10"},
+                    {"name": "stream", "n": {"quick": 1200, "thorough": 40000}, "profiles": ["debug"], "oracle": "oracle_C10", "shard": 100, "count": ["known_F2"]}],
         "rule": "engine codec (debug = overflow-checked and release profile; in release every decode runs in a confined child process): "
                 "length prefixes of every varint byte length 1..11 (values around every power of two, around the 4 MiB limit, overlong / overflowing / "
                 "non-minimal encodings) followed by 0, 1, 3 and 40 payload bytes; all frames of <= 3 (quick) / 4 (thorough) bytes over a 14-byte boundary alphabet; "
@@ -100,7 +102,7 @@ PROPS = {
                 "Non-trivial = a non-empty frame; distinct = distinct input terms.",
         "exhaustive_note": "every proper prefix of each generated small frame; all frame bodies of length <= 3 (quick) / 4 (thorough) over a 14-byte alphabet",
         "assumptions": ["64-bit usize", "message values: byte strings of bytes, int32 fields as u32 bit patterns, nested messages shorter than 2^32 (wf_message)",
-                        "FramedRead chunking is proved about Framed.v (model of asynchronous-codec 0.7 FramedRead2) and exercised by the stream engine"],
+                        "engine stream: the real IncomingStream (FramedRead<_, Codec> + process_message) over a scripted reader: 1-4 encoded messages, sometimes with a bad frame (corrupted byte, oversize announcement, bad varint, invalid presence CID) or a truncated tail, cut into arbitrary read chunks with Pending wake-ups, ended by EOF / an error / nothing; the same bytes are also fed as one read and the delivered messages must agree (outside the known class F2, where the parser reads beyond its frame)"],
     },
     "C11": {
         "engines": [{"name": "codec", "n": {"quick": 1200, "thorough": 40000}, "profiles": ["debug", "release"], "oracle": "oracle_C11", "count": ["in_class_case"]}],
@@ -144,8 +146,10 @@ PROPS = {
     },
     "C15": {
         "engines": [{"name": "client", "n": {"quick": 500, "thorough": 30000}, "profiles": ["debug"], "oracle": "oracle_C15", "shard": 15},
-                    {"name": "server", "n": {"quick": 100, "thorough": 4000}, "profiles": ["debug"], "oracle": "oracle_C13", "shard": 20}],
-        "rule": """engine client: the client half of Behaviour driven op by op (get incl. unconvertible CIDs, cancel of issued and foreign ids, connections opened/closed (via ConnectionClosed and via ClientClosingConnection), incoming client messages with presences and blocks, sending-state reports (protocol-conforming, late, from other connections), release of scripted blockstore get/put calls with hit / miss / failure in any order, virtual-clock advances around 1 s / 5 s / 30 s, ClientBehaviour::poll to Pending, get_new_blocks) over 1-3 peers x <= 3 connections x 2-4 CIDs; after every op the outputs and a full snapshot of the client state are compared with the model. The oracles are folds over the op history and the implementation's outputs/snapshots only. Every history is non-trivial; distinct = distinct op lists. engine server: see C06 (SNewConn on a connected peer must change nothing: compared through the per-op state snapshot).""",
+                    {"name": "server", "n": {"quick": 100, "thorough": 4000}, "profiles": ["debug"], "oracle": "oracle_C13", "shard": 20},
+                    {"name": "handler", "n": {"quick": 800, "thorough": 40000}, "profiles": ["debug"], "oracle": "oracle_C05", "shard": 60},
+                    {"name": "net", "n": {"quick": 2500, "thorough": 60000}, "profiles": ["debug"], "oracle": "oracle_C02", "shard": 200, "distinct_io": True}],
+        "rule": """engine handler: see C05 (a closing connection must report the outcome of a transmission it held, otherwise the peer is not served through its remaining connections). engine net: see C02 (up to three connections per pair, opened and closed at any scheduling step, also while a substream negotiation is pending). engine client: the client half of Behaviour driven op by op (get incl. unconvertible CIDs, cancel of issued and foreign ids, connections opened/closed (via ConnectionClosed and via ClientClosingConnection), incoming client messages with presences and blocks, sending-state reports (protocol-conforming, late, from other connections), release of scripted blockstore get/put calls with hit / miss / failure in any order, virtual-clock advances around 1 s / 5 s / 30 s, ClientBehaviour::poll to Pending, get_new_blocks) over 1-3 peers x <= 3 connections x 2-4 CIDs; after every op the outputs and a full snapshot of the client state are compared with the model. The oracles are folds over the op history and the implementation's outputs/snapshots only. Every history is non-trivial; distinct = distinct op lists. engine server: see C06 (SNewConn on a connected peer must change nothing: compared through the per-op state snapshot).""",
         "assumptions": ["A-SWARM: libp2p-swarm reports connections and delivers NotifyHandler::One as documented; both dial directions create the same handler (lib.rs)"],
     },
     "C13": {
@@ -188,7 +192,7 @@ PROPS = {
     "C14": {
         "engines": [{"name": "handler", "n": {"quick": 1500, "thorough": 60000}, "profiles": ["debug"], "oracle": "oracle_C14", "shard": 60, "count": ["is_disciplined"]},
                     {"name": "client", "n": {"quick": 500, "thorough": 30000}, "profiles": ["debug"], "oracle": "oracle_C14", "shard": 15},
-                    {"name": "net", "n": {"quick": 400, "thorough": 20000}, "profiles": ["debug"], "oracle": "oracle_C14", "shard": 100}],
+                    {"name": "net", "n": {"quick": 2500, "thorough": 60000}, "profiles": ["debug"], "oracle": "oracle_C14", "shard": 200, "distinct_io": True}],
         "rule": "engine handler: see C05 (oracle: the bytes accepted by each stream are a prefix of the frame of exactly one accepted wantlist, a stream never carries more than one frame, Ready is reported iff some stream "
                 "was written the complete frame). engine client: see C03 (oracle: no SendWantlist for a peer while one is outstanding). engine net: 2-4 complete nodes (real Behaviour + real ConnHandlers + real codec) wired by the "
                 "harness's mini swarm over in-memory pipes with arbitrary read chunking, schedules and blockstore latencies; histories of connect / disconnect / get / cancel / local put / evict; after settle + two refresh periods the "
@@ -196,7 +200,7 @@ PROPS = {
         "assumptions": ["partial: A-SWARM / A-STREAM — libp2p-swarm's event plumbing and yamux streams are replaced by the harness's mini swarm and pipes (ordered, lossless until closed); real swarms are not exercised"],
     },
     "C02": {
-        "engines": [{"name": "net", "n": {"quick": 600, "thorough": 30000}, "profiles": ["debug"], "oracle": "oracle_C02", "shard": 100},
+        "engines": [{"name": "net", "n": {"quick": 3000, "thorough": 80000}, "profiles": ["debug"], "oracle": "oracle_C02", "shard": 200, "distinct_io": True},
                     {"name": "server", "n": {"quick": 80, "thorough": 3000}, "profiles": ["debug"], "oracle": "oracle_C06", "shard": 20},
                     {"name": "client", "n": {"quick": 300, "thorough": 20000}, "profiles": ["debug"], "oracle": "oracle_C04", "shard": 15}],
         "rule": "engine net: 2-4 complete nodes (real Behaviour + real ConnHandlers + real codec) wired by the harness's mini swarm over in-memory pipes; random histories of connect (up to 3 connections per pair) / "
@@ -206,7 +210,7 @@ PROPS = {
         "assumptions": ["partial: fairness (every component is polled again and again) is built into `settle` and into the harness's quiesce loop; whether the real code registers a waker for every condition that needs a "
                         "poll is runtime behaviour outside the models", "partial: A-SWARM / A-STREAM (mini swarm and pipes instead of libp2p-swarm / yamux)", "A-STORE: healthy blockstore (get answers the last put unless evicted)",
                         "time passes only when no component is starved for >= 1 s (a handler acknowledgement withheld for 1 s is a C05 fault, after which the client forgets a peer whose only connection it was)",
-                        "the general theorems over all reachable nets are work in progress (Net_proofs*.v); Props_C02.v currently holds the machine-checked composition scenarios"],
+                        "C02_direct / C02_multi_hop are proved for every reachable net under: blocks put by the application hash to their CID, the fair rounds ran to quiescence (checked on the result), the requester's wantlist is within the 1024 cap"],
     },
 }
 NOT_CLAIMED = {}
